@@ -10,17 +10,20 @@ variable {ρ : Type}
 
 /-! ### store and operations (pure part, used by the theorems) -/
 
-abbrev Store (ρ : Type) := List (Nat × Sketch ρ)
-
-def Store.get (st : Store ρ) (id : Nat) : Option (Sketch ρ) :=
+/-- association list keyed by small object ids -/
+def AL.get {α : Type} (st : List (Nat × α)) (id : Nat) : Option α :=
   match st with
   | [] => none
-  | (i, s) :: t => if i = id then some s else Store.get t id
+  | (i, s) :: t => if i = id then some s else AL.get t id
 
-def Store.set (st : Store ρ) (id : Nat) (s : Sketch ρ) : Store ρ :=
+def AL.set {α : Type} (st : List (Nat × α)) (id : Nat) (s : α) : List (Nat × α) :=
   match st with
   | [] => [(id, s)]
-  | (i, s0) :: t => if i = id then (i, s) :: t else (i, s0) :: Store.set t id s
+  | (i, s0) :: t => if i = id then (i, s) :: t else (i, s0) :: AL.set t id s
+
+abbrev Store (ρ : Type) := List (Nat × Sketch ρ)
+abbrev Store.get (st : Store ρ) (id : Nat) : Option (Sketch ρ) := AL.get st id
+abbrev Store.set (st : Store ρ) (id : Nat) (s : Sketch ρ) : Store ρ := AL.set st id s
 
 /-- one public operation on the store.  `rankq` / `viewq` are the state-changing side effects of the const queries
 `get_rank` (sorts every compactor) and `get_sorted_view` / `get_quantile` / `get_CDF` / `get_PMF` (sort level 0). -/
@@ -67,6 +70,36 @@ def runOps (T : Tun) (F : SecFns ρ) : Store ρ → Acc → List Op → Store ρ
 /-- a whole history from the empty store with the coin supply `coins` -/
 def run (T : Tun) (F : SecFns ρ) (ops : List Op) (coins : List Bool) : Store ρ × Acc :=
   runOps T F [] { coins := coins } ops
+
+/-- the specification side: what each object id should hold — its mode and every item fed to it (through merges and copies) -/
+structure SpecSk where
+  hra : Bool
+  items : List Int
+
+def specStep (m : List (Nat × SpecSk)) : Op → List (Nat × SpecSk)
+  | .new id _ hra => AL.set m id { hra := hra, items := [] }
+  | .upd id x =>
+    match AL.get m id with
+    | some s => AL.set m id { s with items := x :: s.items }
+    | none => m
+  | .merge i j =>
+    if i = j then m else
+    match AL.get m i, AL.get m j with
+    | some a, some b => if a.hra != b.hra then m else AL.set m i { a with items := b.items ++ a.items }
+    | _, _ => m
+  | .copy i j =>
+    match AL.get m i with
+    | some s => AL.set m j s
+    | none => m
+  | .rankq _ => m
+  | .viewq _ => m
+
+def specRun : List (Nat × SpecSk) → List Op → List (Nat × SpecSk)
+  | m, [] => m
+  | m, op :: ops => specRun (specStep m op) ops
+
+/-- the items fed to object `id` by the history `ops` (none: no such object) -/
+def inputOf (ops : List Op) (id : Nat) : Option (List Int) := (AL.get (specRun [] ops) id).map (·.items)
 
 /-- all coin vectors of length `n` -/
 def allVecs : Nat → List (List Bool)
